@@ -148,8 +148,9 @@ pub fn append_rule(rule: Arc<Rule>) -> bool {
         }
     }
     let mut placeholder = Vec::new();
-    let breaker_rules = BREAKER_RULES.read().unwrap();
+    // same lock order as `load_rules`: `BREAKER_MAP` before `BREAKER_RULES`
     let mut breaker_map = BREAKER_MAP.write().unwrap();
+    let breaker_rules = BREAKER_RULES.read().unwrap();
     if let Some(rules_of_res) = breaker_rules.get(&rule.resource) {
         // `build_resource_*` moves the reused items out of the old list,
         // so the returned list has to replace the old one as a whole
